@@ -35,7 +35,7 @@ ASSUMPTIONS = [
 ]
 TMP = os.path.join(vlib.CACHE, "tmp", "c03")
 KEEP = os.path.join(vlib.ROOT, "replays", "C03-files")
-KNOWN_NAMES = {"1": "wsdim_absent"}
+KNOWN_NAMES = {}          # no known class left (wsdim_absent was repaired in /repo)
 
 def hexs(s):
     return s.encode("utf-8").hex()
@@ -230,11 +230,14 @@ def gen_layout(rng, env, dim_mode=None):
     # a cell table starts with a row header: leading ignorable records are fine, cells are not
     def raw(rid, body, p=0.25):
         return {"fr": rand_fr(rng, rid, body, p), "id": rid, "body": body}
-    pre1 = [raw(0x81, b"")]
+    pre1 = [("R", raw(0x81, b""))]
     if rng.random() < 0.7:
-        pre1.append(raw(0x93, bytes(rng.getrandbits(8) for _ in range(23))))
+        pre1.append(("R", raw(0x93, bytes(rng.getrandbits(8) for _ in range(23)))))
     if rng.random() < 0.2:
-        pre1.insert(rng.randrange(len(pre1) + 1), raw(rng.choice([0x91, 0x85, 0x25, 0x00, 0x02, 0x92, 0x1FF]), rand_body(rng)))
+        # anything but BrtWsDim / BrtBeginSheetData / a block opener (a block has to be closed)
+        pre1.insert(rng.randrange(len(pre1) + 1), ("R", raw(rng.choice([0x00, 0x02, 0x92, 0x1FF, 0x86, 0x1E5]), rand_body(rng))))
+    if rng.random() < 0.1:
+        pre1.append(("B", raw(0x25, bytes(6)), [raw(rng.choice([0x0400, 0x94, 0x91]), rand_body(rng))], (rand_fr(rng, 0x26, b""), b"")))
     exp = G.expected_cells({"items": items}, env)
     mode = dim_mode or rng.choice(["exact", "exact", "exact", "wrong", "zero", "big", "absent"])
     if mode == "absent":
@@ -269,7 +272,9 @@ def gen_layout(rng, env, dim_mode=None):
         inner = [raw(0x0400, bytes(2))]
         pre2.append(("B", raw(0x25, bytes(6)), inner, (rand_fr(rng, 0x26, b""), b"")))
     if rng.random() < 0.25:
-        rid = rng.choice([x for x in IGNORABLE + [0x00, 0x02, 0x92, 0x86, 0x187] if x not in (0x91, 0x85, 0x25, 0x186)])
+        # a second BrtWsDim after the first is ignored; without a first one it would be the first
+        banned = (0x91, 0x85, 0x25, 0x186) + ((0x94,) if dim is None else ())
+        rid = rng.choice([x for x in IGNORABLE + [0x00, 0x02, 0x92, 0x86, 0x187] if x not in banned])
         pre2.insert(rng.randrange(len(pre2) + 1), ("R", raw(rid, rand_body(rng))))
     bb = b""
     trailer = frame(min_fr(0x97, b""), 0x97, b"") + frame((True, 0), 0x82, b"") if rng.random() < 0.8 else \
@@ -482,17 +487,18 @@ def run_files(ctx, n_files, tag, hdr_share=0.0):
 # ------------------------------------------------------------------ C. malformed parts
 def flat_records(L):
     """[(fr, id, body, role)] of a layout, in stream order (trailer excluded)"""
-    out = [(r["fr"], r["id"], r["body"], "pre1") for r in L["pre1"]]
+    out = []
+    def hrecs(hs, role):
+        for h in hs:
+            out.append((h[1]["fr"], h[1]["id"], h[1]["body"], role))
+            if h[0] == "B":
+                out.extend((r["fr"], r["id"], r["body"], "inner") for r in h[2])
+                out.append((h[3][0], G.BLOCK_END[h[1]["id"]], h[3][1], role))
+    hrecs(L["pre1"], "pre1")
     if L["dim"] is not None:
         r0, c0, r1, c1 = L["dim"]["d"]
         out.append((L["dim"]["fr"], 0x94, struct.pack("<IIII", r0, r1, c0, c1) + L["dim"]["tail"], "dim"))
-    for h in L["pre2"]:
-        if h[0] == "R":
-            out.append((h[1]["fr"], h[1]["id"], h[1]["body"], "pre2"))
-        else:
-            out.append((h[1]["fr"], h[1]["id"], h[1]["body"], "pre2"))
-            out += [(r["fr"], r["id"], r["body"], "inner") for r in h[2]]
-            out.append((h[3][0], G.BLOCK_END[h[1]["id"]], h[3][1], "pre2"))
+    hrecs(L["pre2"], "pre2")
     out.append((L["begin"][0], 0x91, L["begin"][1], "begin"))
     for it in L["items"]:
         out.append((it["fr"], G.item_id(it), G.item_body(it), it["k"]))
